@@ -1411,6 +1411,209 @@ pub fn replace_str<C: Case, A: Automaton, const N: usize, const W: usize>(aut: &
     core::mem::forget(dst);
 }
 
+/// The abstract searcher of the compositional C12 harnesses: an arbitrary
+/// (symbolic) search function on a haystack of N bytes - a search starting at
+/// `s` reports nothing or any match `s <= start <= end <= N` of pattern 0 or 1.
+#[cfg(kani)]
+fn any_script<const N: usize>() -> aho_corasick::verif::automaton::ScriptAut {
+    let mut table = [(false, 0u8, 0u8, 0u8); 8];
+    let mut i = 0;
+    while i <= N {
+        let present: bool = any();
+        let pid: u8 = any();
+        let ms: u8 = any();
+        let me: u8 = any();
+        assume(pid < 2 && (ms as usize) >= i && ms <= me && (me as usize) <= N);
+        table[i] = (present, pid, ms, me);
+        i += 1;
+    }
+    aho_corasick::verif::automaton::ScriptAut { table, std: any() }
+}
+
+/// The iterator rule of the specification on the abstract searcher.
+#[cfg(kani)]
+fn script_next<const N: usize>(a: &aho_corasick::verif::automaton::ScriptAut, pos: usize, last: Option<usize>) -> Option<M> {
+    let look = |p: usize| -> Option<M> {
+        if p > N || !a.table[p].0 {
+            None
+        } else {
+            Some((a.table[p].1 as usize, a.table[p].2 as usize, a.table[p].3 as usize))
+        }
+    };
+    match look(pos) {
+        Some((_, ms, me)) if ms == me && Some(me) == last => look(pos + 1),
+        m => m,
+    }
+}
+
+/// C12, compositional form: `try_replace_all_with_bytes` driven by the real
+/// non-overlapping iterator over an ARBITRARY search function equals the
+/// splice of the iterator's matches (closure stops at a symbolic call). With
+/// C01/C02 (the real `try_find` is the defined search function) this gives
+/// the property for every pattern list.
+#[cfg(kani)]
+pub fn replace_bytes_script<const N: usize, const W: usize>() {
+    assert!(N < 8);
+    let aut = any_script::<N>();
+    let hay: [u8; N] = any();
+    let stop: usize = any();
+    let mut dst: Vec<u8> = Vec::with_capacity(W);
+    let mut calls = 0usize;
+    let mut handed_ok = true;
+    let hayref = &hay;
+    aut.try_replace_all_with_bytes(&hay[..], &mut dst, |m, bytes, dst| {
+        if bytes.len() != m.end() - m.start() || bytes.as_ptr() != hayref[m.start()..].as_ptr() {
+            handed_ok = false;
+        }
+        let tag = [b'0' + m.pattern().as_usize() as u8];
+        dst.extend_from_slice(&tag);
+        if m.pattern().as_usize() % 2 == 1 {
+            dst.extend_from_slice(&tag);
+        }
+        calls += 1;
+        calls != stop
+    })
+    .unwrap();
+    assert!(handed_ok, "closure is not handed the matched bytes");
+    let mut want = [0u8; W];
+    let mut nw = 0;
+    let mut pos = 0;
+    let mut last: Option<usize> = None;
+    let mut copied_from = 0;
+    let mut ncalls = 0usize;
+    let mut k = 0;
+    let mut go = true;
+    while k <= N + 1 {
+        if go {
+            match script_next::<N>(&aut, pos, last) {
+                Some((p, s, e)) => {
+                    let mut i = copied_from;
+                    while i < s {
+                        want[nw] = hay[i];
+                        nw += 1;
+                        i += 1;
+                    }
+                    want[nw] = b'0' + p as u8;
+                    nw += 1;
+                    if p % 2 == 1 {
+                        want[nw] = b'0' + p as u8;
+                        nw += 1;
+                    }
+                    copied_from = e;
+                    pos = e;
+                    last = Some(e);
+                    ncalls += 1;
+                    if ncalls == stop {
+                        go = false;
+                    }
+                }
+                None => go = false,
+            }
+        }
+        k += 1;
+    }
+    let mut i = copied_from;
+    while i < N {
+        want[nw] = hay[i];
+        nw += 1;
+        i += 1;
+    }
+    assert!(dst.len() == nw, "replace_all output length differs from the splice definition");
+    let mut i = 0;
+    while i < W {
+        if i < nw {
+            assert!(dst[i] == want[i], "replace_all output differs from the splice definition");
+        }
+        i += 1;
+    }
+    cover!(ncalls >= 1 && ncalls == stop, "closure stops the replacement");
+    cover!(ncalls >= 2, "two replacements");
+    cover!(ncalls >= 2 && copied_from < N, "two replacements and a tail");
+    core::mem::forget(dst);
+}
+
+/// C12, compositional form, `&str` variant: on a valid UTF-8 haystack and an
+/// arbitrary search function (matches may split characters) the routine does
+/// not panic, skips exactly the matches whose bounds are not character
+/// boundaries, and yields the splice of the others (valid UTF-8 follows: the
+/// output is a concatenation of whole characters and the closure's strings).
+#[cfg(kani)]
+pub fn replace_str_script<const N: usize, const W: usize>() {
+    assert!(N < 8);
+    let aut = any_script::<N>();
+    let hay: [u8; N] = any();
+    let st = core::str::from_utf8(&hay[..]);
+    assume(st.is_ok());
+    let text = st.unwrap();
+    let stop: usize = any();
+    let mut calls = 0usize;
+    let mut dst = String::with_capacity(W);
+    aut.try_replace_all_with(text, &mut dst, |m, _s, dst| {
+        let tag = [b'0' + m.pattern().as_usize() as u8];
+        dst.push_str(unsafe { core::str::from_utf8_unchecked(&tag) });
+        calls += 1;
+        calls != stop
+    })
+    .unwrap();
+    let boundary = |i: usize| -> bool { i == N || (i < N && (hay[i] as i8) >= -0x40) };
+    let mut want = [0u8; W];
+    let mut nw = 0;
+    let mut pos = 0;
+    let mut last: Option<usize> = None;
+    let mut copied_from = 0;
+    let mut ncalls = 0usize;
+    let mut skipped = 0usize;
+    let mut k = 0;
+    let mut go = true;
+    while k <= N + 1 {
+        if go {
+            match script_next::<N>(&aut, pos, last) {
+                Some((p, s, e)) => {
+                    if boundary(s) && boundary(e) {
+                        let mut i = copied_from;
+                        while i < s {
+                            want[nw] = hay[i];
+                            nw += 1;
+                            i += 1;
+                        }
+                        want[nw] = b'0' + p as u8;
+                        nw += 1;
+                        copied_from = e;
+                        ncalls += 1;
+                        if ncalls == stop {
+                            go = false;
+                        }
+                    } else {
+                        skipped += 1;
+                    }
+                    pos = e;
+                    last = Some(e);
+                }
+                None => go = false,
+            }
+        }
+        k += 1;
+    }
+    let mut i = copied_from;
+    while i < N {
+        want[nw] = hay[i];
+        nw += 1;
+        i += 1;
+    }
+    let out = dst.as_bytes();
+    assert!(out.len() == nw, "replace_all (str) output length differs from the splice definition");
+    let mut i = 0;
+    while i < W {
+        if i < nw {
+            assert!(out[i] == want[i], "replace_all (str) output differs from the splice definition");
+        }
+        i += 1;
+    }
+    cover!(skipped > 0 && ncalls > 0, "a skipped match and a replacement");
+    cover!(skipped > 0 && copied_from == 0 && N >= 3, "only skipped matches");
+    core::mem::forget(dst);
+}
+
 // ---------------------------------------------------------------------------
 // C17: purity (sequential histories)
 
